@@ -1737,6 +1737,16 @@ impl Fs {
                 {
                     return true;
                 }
+                // Entries that arrived by a pending rename (same rule as
+                // `dir_entries`)
+                PendingOp::Rename { to, .. }
+                    if to.parent() == Some(path)
+                        && (self.file_exists(to)
+                            || self.dir_exists(to)
+                            || self.symlink_exists(to)) =>
+                {
+                    return true;
+                }
                 _ => {}
             }
         }
